@@ -766,6 +766,18 @@ def oracle(case, obs):
     if inexact and k != "solve" and len(cases) == 1:
         pre, _ = _model_input(inp)
         if py_lines_match(pre, cases[0], TOL) is False:
+            # constants at the edge of the float range in the INPUT (they may cancel in the output): the flip decision, taken by evaluating
+            # the line at a float test point, is swamped (1e300 + x == 1e300): known finding flip-decision-float-overflow when flipping
+            # the comparator of some lines back makes the forms agree
+            import re as _re, itertools as _it
+            if _re.search(r"e[+-]?300", case.get("text", "")):
+                flipc = {"<": ">", "<=": ">=", ">=": "<=", ">": "<", "=": "=", "!=": "!="}
+                idx = [i for i, r in enumerate(cases[0]) if r[1] not in ("=", "!=")]
+                for k_ in range(1, len(idx) + 1):
+                    for sub in _it.combinations(idx, k_):
+                        alt = [(r[0], flipc[r[1]], r[2]) if i in sub else r for i, r in enumerate(cases[0])]
+                        if py_lines_match(pre, alt, TOL) is not False:
+                            return [_fail("same-points", "symbolic._simplify1", "flip-decision-float-overflow", dict(output=obs.get("cases"), flipped=list(sub)))]
             return [_fail("same-points", site, "inexact-canonical-form-mismatch", dict(output=obs.get("cases")))]
     mism = []
     for p in pts:
@@ -1053,6 +1065,9 @@ def coq_terms(case, obs):
         return []
     if any(_overflow_lines(c) for c in cases):
         return []     # float overflow inside mystic's test-point evaluation is not modelled (finding E)
+    import re as _re
+    if _re.search(r"e[+-]?300", case.get("text", "")):
+        return []     # ... nor is its being swamped by constants at the edge of the float range in the input (same finding)
     adjusted = False
     if k != "solve":
         minp, notes = _model_input(inp)
